@@ -59,6 +59,7 @@ def replay (h : List Note) (events : List String) : Option (St × Bool) :=
   go events St.init 0 [] true (events.length + 1)
 
 def handleC18 : List String → String
+  | ["dep", _label] => "same"   -- effectiveText: the open text is what is analysed (open_dependency_overrides_disk)
   | ["run", hist, evs] =>
     let h := (hist.splitOn ",").foldr (fun t acc => match acc, parseNote t with
       | some l, some n => some (n :: l) | _, _ => none) (some [])
